@@ -310,7 +310,15 @@ def publish(case, destdir, fault_serializer_at=None):
   if case['kind'] == 'json':
     rec = the_record()
     cb = json_factory.OutputToJSON(pattern, indent=case.get('indent'))
-    if fault_serializer_at is not None:
+    if fault_serializer_at in ('real-nan', 'real-set'):
+      # no injected fault: the genuine JSON encoder meets a value it cannot encode (configuration values reach the record as
+      # they are) after it has produced most of the record
+      import copy as _copy  # pylint: disable=g-import-not-at-top
+      rec = _copy.copy(rec)
+      rec.metadata = dict(rec.metadata, config=dict(rec.metadata.get('config') or {}, zz_calibration_offset=(
+          float('nan') if fault_serializer_at == 'real-nan' else {1, 2})))
+      rec._cached_config_from_metadata = rec.metadata['config']  # pylint: disable=protected-access
+    elif fault_serializer_at is not None:
       orig = cb.serialize_test_record
 
       def ser(test_rec):
@@ -476,6 +484,8 @@ def check(case, acct=None, known=()):
     # ---- serializer / producer exception after k chunks
     nchunks = len(case['chunks']) if case['kind'] != 'json' else min(6, content.count(b',') + 1)
     ks = list(range(0, nchunks + 1)) if not (case['kind'] == 'file' and (case['serializer'] == 'pickle' or case.get('single'))) else [0]
+    if case['kind'] == 'json':
+      ks += ['real-nan', 'real-set']
     for k in ks:
       sb.reset(prev, name)
       fault = Fault()
